@@ -443,6 +443,39 @@ func (e *c21Env) front(w http.ResponseWriter, r *http.Request) {
 		conn.Write(data[:len(data)/2])
 		conn.Close()
 	default:
+		if strings.HasPrefix(fault, "netcut") {
+			// the worker runs the turn; the uncompressed answer is announced with its full
+			// Content-Length but the connection breaks exactly at an IPC message boundary
+			rec := httptest.NewRecorder()
+			e.hs.ServeHTTP(rec, r)
+			resp := &c21Resp{status: rec.Code, header: rec.Header().Clone(), body: append([]byte(nil), rec.Body.Bytes()...), clen: -2, readErr: -1}
+			var cw c21Wire
+			if e.applyFault(resp, "shortcl"+strings.TrimPrefix(fault, "netcut"), &cw) {
+				conn := hijack()
+				fmt.Fprintf(conn, "HTTP/1.1 %d OK\r\n", resp.status)
+				for k, vs := range resp.header {
+					if k == "Content-Length" {
+						continue
+					}
+					for _, v := range vs {
+						fmt.Fprintf(conn, "%s: %s\r\n", k, v)
+					}
+				}
+				fmt.Fprintf(conn, "Content-Length: %d\r\n\r\n", resp.clen)
+				conn.Write(resp.body[:resp.readErr])
+				conn.Close()
+				return
+			}
+			// not applicable to this response: deliver it unchanged
+			for k, vs := range rec.Header() {
+				for _, v := range vs {
+					w.Header().Add(k, v)
+				}
+			}
+			w.WriteHeader(rec.Code)
+			w.Write(rec.Body.Bytes())
+			return
+		}
 		e.hs.ServeHTTP(w, r)
 	}
 }
@@ -653,6 +686,7 @@ type c21Wire struct {
 	applied bool     // the fault took effect (some faults do not apply to some responses)
 	overCap bool     // the response handed to the client exceeds one of the client's size caps
 	bad     bool     // the Arrow library could not read the (decoded) body to its end
+	short   bool     // the body ended (with a read error) before the declared Content-Length was delivered
 	abs     string   // abstract response (model words)
 	tokens  []string // non-empty stream-state values in the response handed to the client
 }
@@ -699,6 +733,7 @@ func (rt *c21RT) netRoundTrip(req *http.Request) (*http.Response, error) {
 	if rerr != nil {
 		r.readErr = len(data)
 	}
+	w.short = rerr != nil || (resp.ContentLength >= 0 && int64(len(data)) < resp.ContentLength)
 	w.abs, w.tokens, w.overCap, w.bad = env.abstract(r)
 	rt.wire = append(rt.wire, w)
 	var rd io.Reader = bytes.NewReader(data)
@@ -806,6 +841,7 @@ func (rt *c21RT) RoundTrip(req *http.Request) (*http.Response, error) {
 		}
 	}
 	w.abs, w.tokens, w.overCap, w.bad = env.abstract(resp)
+	w.short = resp.readErr >= 0
 	rt.wire = append(rt.wire, w)
 
 	clen := resp.clen
@@ -1267,6 +1303,31 @@ func (e *c21Env) applyFault(r *c21Resp, f string, w *c21Wire) bool {
 			return false
 		}
 		r.body = append(r.body, parts[len(parts)-1]...)
+		return true
+	case "shortcl":
+		// the declared Content-Length promises the whole body, the connection delivers only a prefix
+		// that ends exactly at an Arrow IPC message boundary (k record batches, or all but the EOS
+		// marker) and then breaks: the body reader reports io.ErrUnexpectedEOF like net/http does
+		if !e.plainize(r) {
+			return false
+		}
+		full := len(r.body)
+		okc := false
+		if arg == "eos" {
+			okc = e.rewrite(r, hdr, false, same)
+		} else {
+			k := argInt(0)
+			okc = e.rewrite(r, hdr, false, func(s *arrow.Schema, recs []*c21Rec) (*arrow.Schema, []*c21Rec, bool) {
+				if k > len(recs) {
+					return s, recs, false
+				}
+				return s, recs[:k], true
+			})
+		}
+		if !okc || len(r.body) >= full {
+			return false
+		}
+		r.clen, r.readErr = int64(full), len(r.body)
 		return true
 	case "noeos":
 		return e.rewrite(r, hdr, false, same)
